@@ -276,7 +276,7 @@ func devApplies(dev, kind string) bool {
 		return kind == "bal"
 	case "amt+1", "amt-1", "noop":
 		return kind == "mint" || kind == "burnc" || kind == "burn" || kind == "xfer"
-	case "false", "falsemoved", "retempty", "retbad", "ret2", "approval", "approvalfirst", "notopics", "otherlog", "credit":
+	case "false", "falsemoved", "retempty", "retbad", "ret2", "approval", "approvalfirst", "approval1", "approval4", "notopics", "otherlog", "credit":
 		return kind == "xfer"
 	case "qnil":
 		return kind == "name" || kind == "sym" || kind == "dec"
@@ -454,6 +454,13 @@ func (m *ScriptEVM) ApplyMessage(ctx sdk.Context, msg core.Message, tracer vm.EV
 			res.Logs = append(res.Logs, apr)
 		case "approvalfirst":
 			res.Logs = append([]*evmtypes.Log{apr}, res.Logs...)
+		case "approval1":
+			// the same event id with non-indexed parameters (one topic, everything in the data)
+			res.Logs = append(res.Logs, &evmtypes.Log{Address: c.Hex(), Topics: []string{approvalSig.Hex()},
+				Data: append(append(common.LeftPadBytes(from.Bytes(), 32), common.LeftPadBytes(to.Bytes(), 32)...), word(amt)...)})
+		case "approval4":
+			res.Logs = append(res.Logs, &evmtypes.Log{Address: c.Hex(), Topics: []string{approvalSig.Hex(), common.BytesToHash(from.Bytes()).Hex(),
+				common.BytesToHash(to.Bytes()).Hex(), common.BytesToHash(amt.Bytes()).Hex()}})
 		case "notopics":
 			res.Logs = append(res.Logs, &evmtypes.Log{Address: c.Hex(), Topics: []string{}, Data: word(amt)})
 		case "otherlog":
